@@ -62,7 +62,7 @@
       | F ok=<0|1> failed=<0|1> fe=<e> ts=<0|1> run=<e>+<e>.. nodes=...   failing build: ok = accepted by the scan,
              failed = exit flag "subcommand failed", fe = the statement that failed ("-" = none),
              run = the commands STARTED, oldest first (the failing one is the last)
-             with @k<N>: fe = ALL failed statements, oldest first, joined by '+'; blk = the blocked statements (failed, or
+             with @k<N> (run by HistFailKFaithful.buildFK_f; oldok= old= : HistFailKDefs.buildFK): fe = ALL failed statements, oldest first, joined by '+'; blk = the blocked statements (failed, or
              skipped because an input's statement is blocked); bud = failures still allowed at the end ("inf" = -k 0)
       | P res=<done|refused|invalid|incomplete|fuel> ok=<0|1> acc=<n> ts= run=.. bfok= bf=.. conf=<0|1> nodes=..
              a build under a schedule: res = HistParDefs.presult (done = a valid complete execution; the state goes on from
@@ -103,8 +103,9 @@
    Header: wf= frag=<frag_ABY> fragi=<frag_AB (inline_y g y)> topo= nip= (both on the inlined graph) ddo=<dd_ins_ordered>
    nlr=<no_late_restat> ads=<all_dd_sources> hok= hp=<hist_present_y>.  Per Build:
       | B res=<done|failed|refused> ok= ts=1 run=.. oldres= old=.. sl=<n>+.. iok= irun=.. eqi=<0|1> nodes=..
-        res / run: HistDyndepDefs.ybuild_f (CleanNode-faithful); failed = a mid-build load made the re-scan fail (the state is
-        what had happened until then); oldres / old: ybuild from the same state; sl = the dyndep files loaded at scan time
+        res / run: HistDyndepFaithful.ybuild_ff (CleanNode + Plan::DyndepsLoaded / RefreshDyndepDependents followed literally;
+        "fuel" must not occur); failed = a mid-build load failed (the producer's outputs are written, NOT logged);
+        oldres / old: HistDyndepDefs.ybuild_f, old2res / old2: ybuild, both from the same state; sl = the dyndep files loaded at scan time
         (scan_loads); iok / irun: HistFaithful.build_f of the INLINED manifest, which goes through the same history next to it;
         eqi = the two are in the same state (disk, build log, clock) after this build (C11_equiv); nodes as in `hist`, q =
         content_of = clean_of of the inlined manifest *)
@@ -303,15 +304,18 @@ let hist_line (direct : bool) (l : string) : string =
               | 'w' -> FailWrote (fun o -> n_of_int (c + int_of_nat o))
               | _ -> failwith "bad fault kind")) fs in
         let budget = if kn <= 0 then None else Some (nat_of_int kn) in
-        (match buildFK cmdf g !st t faults budget with
+        (* HistFailKFaithful.buildFK_f (CleanNode-faithful); HistFailKDefs.buildFK from the same state next to it (old=) *)
+        let (ook, orun) = match buildFK cmdf g !st t faults budget with
+          | Some a -> (true, trace_delta !st a.k_st) | None -> (false, []) in
+        (match buildFK_f cmdf g !st t faults budget with
          | Some a ->
            let fe = List.rev (failed_edges a) in
-           Buffer.add_string buf (Printf.sprintf " | F ok=1 failed=%s fe=%s ts=%s run=%s blk=%s bud=%s nodes=%s" (b (fe <> [])) (es fe) (b ts)
+           Buffer.add_string buf (Printf.sprintf " | F ok=1 failed=%s fe=%s ts=%s run=%s blk=%s bud=%s oldok=%s old=%s nodes=%s" (b (fe <> [])) (es fe) (b ts)
                                     (es (trace_delta !st a.k_st)) (es (List.rev a.k_blocked))
-                                    (match a.k_budget with None -> "inf" | Some n -> string_of_int (int_of_nat n)) (show_nodes a.k_st));
+                                    (match a.k_budget with None -> "inf" | Some n -> string_of_int (int_of_nat n)) (b ook) (es orun) (show_nodes a.k_st));
            st := a.k_st
          | None ->
-           Buffer.add_string buf (Printf.sprintf " | F ok=0 failed=0 fe=- ts=%s run=- blk=- bud=- nodes=%s" (b ts) (show_nodes !st)))
+           Buffer.add_string buf (Printf.sprintf " | F ok=0 failed=0 fe=- ts=%s run=- blk=- bud=- oldok=%s old=%s nodes=%s" (b ts) (b ook) (es orun) (show_nodes !st)))
       | FB (t, fs, None) ->
         let ts = taint_safe g !st in
         let faults = List.map (fun (e, k, c) ->
@@ -591,11 +595,13 @@ let histy_line (l : string) : string =
       | Build t ->
         let res r = match r with YDone st' -> ("done", st') | YFailed st' -> ("failed", st') | YRefused -> ("refused", !st) in
         let sl = scan_loads g y !st in
-        let (ores, ost) = res (ybuild mcmd g y !st t) in
-        let (rs, st') = res (ybuild_f mcmd g y !st t) in
+        let (ores, ost) = res (ybuild_f mcmd g y !st t) in
+        let (o2res, o2st) = res (ybuild mcmd g y !st t) in
+        let (rs, st') = match ybuild_ff mcmd g y !st t with
+          | FDone st' -> ("done", st') | FFailed st' -> ("failed", st') | FRefused -> ("refused", !st) | FOutOfFuel st' -> ("fuel", st') in
         let (iok, sti') = match build_f mcmd gi !sti t with Some x -> (true, x) | None -> (false, !sti) in
-        Buffer.add_string buf (Printf.sprintf " | B res=%s ok=%s ts=1 run=%s oldres=%s old=%s sl=%s iok=%s irun=%s eqi=%s nodes=%s"
-                                 rs (b (rs <> "refused")) (es (trace_delta !st st')) ores (es (trace_delta !st ost)) (es sl)
+        Buffer.add_string buf (Printf.sprintf " | B res=%s ok=%s ts=1 run=%s oldres=%s old=%s old2res=%s old2=%s sl=%s iok=%s irun=%s eqi=%s nodes=%s"
+                                 rs (b (rs <> "refused")) (es (trace_delta !st st')) ores (es (trace_delta !st ost)) o2res (es (trace_delta !st o2st)) (es sl)
                                  (b iok) (es (trace_delta !sti sti')) (b (same st' sti')) (show st'));
         st := st'; sti := sti'
       | _ -> st := apply_step mcmd g !st s; sti := apply_step mcmd gi !sti s) steps;
